@@ -26,7 +26,7 @@ ASSUMPTIONS = [
 CASE_TIMEOUT = 120
 S0 = simspace.START
 
-UNITS = ["probability", "rate", "number", "proportion", "nontransition", "fnparam"]
+UNITS = ["probability", "rate", "number", "proportion", "nontransition", "fnparam", "rate_ts", "probability_ts"]  # *_ts: the parameter has its own timescale (half a year / a month)
 INSTR = ["start", "startstop", "alloc", "capacity", "coverage", "coverage_high", "tv_alloc"]
 
 
@@ -44,8 +44,8 @@ def model(unit, nprog, npop, ncomp, instr, dt, tight=False):
     )
     P = spec["pars"]
     base, outs = 0.1, [0.7, 0.4, 0.9]
-    if unit in ("probability", "rate"):
-        P.append(dict(name="tp", fmt=unit, val=0.2, targ=True, min=0, max=None if unit == "rate" else 0.95 / dt if dt < 1 else None))
+    if unit in ("probability", "rate", "rate_ts", "probability_ts"):
+        P.append(dict(name="tp", fmt=unit.split("_")[0], ts={"rate_ts": 0.5, "probability_ts": 1 / 12}.get(unit), val=0.2, targ=True, min=0, max=None if unit != "probability" else 0.95 / dt if dt < 1 else None))
         spec["links"].append(["a", "b", "tp"])
         base, outs = 0.1 * dt, [0.7 * dt, 0.4 * dt, 0.9 * dt]
     elif unit == "fnparam":
@@ -70,7 +70,7 @@ def model(unit, nprog, npop, ncomp, instr, dt, tight=False):
         # framework limits that the value implied by the program set violates at some coverages (the databook values lie inside them)
         tp = next(q for q in P if q["name"] == "tp")
         tp["max"] = 30.0 if unit == "number" else 0.5
-        if unit not in ("probability", "rate", "fnparam", "number", "proportion"):
+        if unit not in ("probability", "rate", "rate_ts", "probability_ts", "fnparam", "number", "proportion"):
             tp["min"] = 0.3
     comps = ["a", "b"][:ncomp]
     progs = [dict(name="P1", pops=list(pops), comps=comps, spend=300.0, uc=10.0, oneoff=True)]
